@@ -21,6 +21,7 @@ from .delegates.formatter._format_helpers import (
 )
 from .delegates.formatter._format_helpers import (
     pretty_fmt_exponent as _pretty_fmt_exponent,  # noqa: F401
+    format_exponent as _format_exponent,
 )
 from .delegates.formatter._spec_helpers import (
     _BASIC_TYPES,  # noqa: F401
@@ -59,7 +60,7 @@ def formatter(
     division_fmt: str = " / ",
     power_fmt: str = "{} ** {}",
     parentheses_fmt: str = "({0})",
-    exp_call: FORMATTER = "{:n}".format,
+    exp_call: FORMATTER = _format_exponent,
     sort: bool = True,
 ) -> str:
     """Format a list of (name, exponent) pairs.
